@@ -131,11 +131,11 @@ func (s *Supervisor) GenerateAutoReceive(sendBlock *nom.AccountBlock) (*Contract
 	}
 	vm := NewVM(context)
 	block, methodErr, err := vm.generateEmbeddedReceive(template.FromBlockHash)
-	if err := s.verifier.AccountBlock(block); err != nil {
+	// on an internal error there is no block to verify
+	if err != nil {
 		return nil, err
 	}
-
-	if err != nil {
+	if err := s.verifier.AccountBlock(block); err != nil {
 		return nil, err
 	}
 	transaction, err := s.packBlock(context, block, nil)
